@@ -100,3 +100,77 @@ func vC08(deferred bool) {
 
 func VerifC08_Immediate() { vC08(false) }
 func VerifC08_Deferred()  { vC08(true) }
+
+// VerifC08_Depth: a subscriber and a clone-of-clone below a filtered clone: at
+// every depth Ready means "the filtered clone is synced" and nothing is
+// delivered before it.
+func VerifC08_Depth() {
+	deferred := zzverif.NondetInt("deferred", 0, 1) == 1
+	var f0 filter.Filter = symFilter{0}
+	if deferred {
+		f0 = filter.All()
+	}
+	e := newFilterEnv(deferred, f0, 8)
+	n0 := zzverif.NondetInt("parent.n0", 0, 1)
+	for i := 0; i < n0; i++ {
+		e.parentChange()
+	}
+	fc := newFilterPublisher(vLog{}, e.fs)
+	sub, err := fc.Subscribe()
+	zzverif.Assert(err == nil, "harness/subscribe")
+	clone, err := fc.Clone()
+	zzverif.Assert(err == nil, "harness/clone")
+	sub2, err := clone.Subscribe()
+	zzverif.Assert(err == nil, "harness/subscribe")
+
+	type obs struct {
+		ready bool
+		list  []vEnt
+	}
+	watch := func(s Subscription, out chan obs) {
+		go func() {
+			<-s.Ready()
+			out <- obs{ready: true, list: vListEnts(s.Cache(), "harness/own-list")}
+		}()
+		go func() {
+			if _, ok := <-s.Events(); ok {
+				zzverif.Assert(vClosed(s.Ready()), "C08/no-event-before-ready/depth")
+			}
+		}()
+	}
+	o1, o2 := make(chan obs, 1), make(chan obs, 1)
+	watch(sub, o1)
+	watch(sub2, o2)
+
+	K := zzverif.Param("K", 3)
+	for i := 0; i < K; i++ {
+		switch zzverif.NondetInt("action", 0, 2) {
+		case 0:
+			if e.pready {
+				zzverif.Assume(false)
+			}
+			e.parentReady()
+		case 1:
+			e.parentChange()
+		default:
+			e.refilter(symFilter{1})
+		}
+	}
+	zzverif.Quiesce()
+	want := e.expectReady()
+	zzverif.Assert(vClosed(fc.Ready()) == want, "C08/ready-iff-synced/clone")
+	zzverif.Assert(vClosed(sub.Ready()) == want, "C08/ready-iff-synced/subscriber-of-clone")
+	zzverif.Assert(vClosed(clone.Ready()) == want, "C08/ready-iff-synced/clone-of-clone")
+	zzverif.Assert(vClosed(sub2.Ready()) == want, "C08/ready-iff-synced/depth-3")
+	if want {
+		// the caches read below the clone are the clone's (synced) cache
+		own := vListEnts(e.fs.Cache(), "harness/own-list")
+		zzverif.Assert(vSameContent(vListEnts(sub.Cache(), "harness/own-list"), own), "C08/ready-implies-synced/depth")
+		zzverif.Assert(vSameContent(vListEnts(sub2.Cache(), "harness/own-list"), own), "C08/ready-implies-synced/depth")
+		<-o1
+		<-o2
+		zzverif.Reach("C08/depth-ready")
+	} else {
+		zzverif.Reach("C08/depth-not-ready")
+	}
+}
